@@ -26,7 +26,7 @@ func Main(gen func(*h.Rng, string, func(string)), run func(string) string) {
 }
 
 func runParallel(run func(string) string) {
-	w := bufio.NewWriterSize(os.Stdout, 1<<20)
+	w := bufio.NewWriterSize(h.ProtocolOut(), 1<<20)
 	defer w.Flush()
 	sc := bufio.NewScanner(os.Stdin)
 	sc.Buffer(make([]byte, 1<<20), 1<<28)
